@@ -1,5 +1,5 @@
-(* Proof/ChanWake.v -- C05: the combined invariant holds in every reachable state outside
-   the F18 class, and in a quiescent state it leaves no room for undelivered output, an
+(* Proof/ChanWake.v -- C05: the combined invariant holds in every reachable state of the
+   runs in which no worker-side send_continue has raised, and in a quiescent state it leaves no room for undelivered output, an
    unserviced request, a producer parked with space, or an unfinished close. *)
 From Coq Require Import List ZArith Bool Arith Lia.
 From WV Require Import Lib.Conc Model.ChanWake Proof.ChanWakeInv Proof.ChanWakeBase Proof.ChanWakeL1 Proof.ChanWakeL1b
